@@ -4,9 +4,11 @@ package c20
 import (
 	"fmt"
 	"math"
+	"net/http"
 	"strconv"
 	"testing"
 
+	"github.com/issue9/mux/v9"
 	"github.com/issue9/mux/v9/types"
 	"pgregory.net/rapid"
 
@@ -14,7 +16,7 @@ import (
 )
 
 type Op struct {
-	Kind string `json:"kind"` // set delete reset renew
+	Kind string `json:"kind"` // set delete reset renew serve
 	Slot int    `json:"slot"`
 	K    string `json:"k,omitempty"`
 	V    string `json:"v,omitempty"`
@@ -44,6 +46,46 @@ func genStr(t *rapid.T, label string, pool []string) string {
 	return rapid.String().Draw(t, label+"Any")
 }
 
+var serveKinds = []string{"router-hit", "router-404", "router-405", "router-panic-recovered", "group-hit", "group-miss", "group-miss-panic-recovered", "nested"}
+
+// traffic builds a router and a group that use the context pool the way applications do.
+type traffic struct {
+	r *rig.Router
+	g *rig.Group
+}
+
+func newTraffic() *traffic {
+	env := rig.NewEnv()
+	rec := mux.WithRecovery(func(w http.ResponseWriter, _ any) { w.WriteHeader(500) })
+	r := env.NewRouter("r", rig.Opts{Extra: []mux.Option{rec}})
+	r.Handle("/a/{id}", env.NewH(), nil, "GET")
+	g := env.NewGroup(rec)
+	gr := g.New("gr", mux.NewPathVersion("pv", "v1"))
+	gr.Handle("/a/{id}/{rest}", env.NewH(), nil, "GET")
+	return &traffic{r: r, g: g}
+}
+
+func (tr *traffic) run(kind string) {
+	switch kind {
+	case "router-hit":
+		rig.Serve(tr.r, rig.Req{Method: "GET", Path: "/a/1"})
+	case "router-404":
+		rig.Serve(tr.r, rig.Req{Method: "GET", Path: "/zz"})
+	case "router-405":
+		rig.Serve(tr.r, rig.Req{Method: "PUT", Path: "/a/1"})
+	case "router-panic-recovered":
+		rig.Serve(tr.r, rig.Req{Method: "GET", Path: "/a/1", PanicAt: "base", PanicWith: "boom"})
+	case "group-hit":
+		rig.Serve(tr.g, rig.Req{Method: "GET", Path: "/v1/a/1/2"})
+	case "group-miss":
+		rig.Serve(tr.g, rig.Req{Method: "GET", Path: "/v9/a"})
+	case "group-miss-panic-recovered":
+		rig.Serve(tr.g, rig.Req{Method: "GET", Path: "/v9/a", PanicAt: "base", PanicWith: "boom"})
+	case "nested":
+		rig.Serve(tr.g, rig.Req{Method: "GET", Path: "/v1/a/1/2", Sub: &rig.Req{Method: "GET", Path: "/a/7"}, SubHandler: tr.r})
+	}
+}
+
 func gen(t *rapid.T) Case {
 	var c Case
 	n := rapid.IntRange(1, 25).Draw(t, "nops")
@@ -60,10 +102,14 @@ func gen(t *rapid.T) Case {
 		case k < 15:
 			op.Kind = "delete"
 			op.K = genStr(t, "key", keyPool)
-		case k < 17:
+		case k < 16:
 			op.Kind = "reset"
-		default:
+		case k < 18:
 			op.Kind = "renew"
+		default:
+			// traffic through the library's own users of the pool between two accessor steps
+			op.Kind = "serve"
+			op.K = rapid.SampledFrom(serveKinds).Draw(t, "serveKind")
 		}
 		c.Ops = append(c.Ops, op)
 	}
@@ -225,6 +271,7 @@ func check(c Case, st *rig.Stats) error {
 	}
 	nontriv := false
 	var classes []string
+	var tr *traffic
 	for i := range ctxs {
 		if err := verify(ctxs[i], models[i], c, fmt.Sprintf("fresh slot %d", i)); err != nil {
 			return err
@@ -264,6 +311,28 @@ func check(c Case, st *rig.Stats) error {
 			if ctxs[0] == ctxs[1] {
 				return rig.Violf("pool-alias", "step %d: two live contexts are the same object", i)
 			}
+		case "serve":
+			if tr == nil {
+				tr = newTraffic()
+			}
+			tr.run(op.K)
+			classes = append(classes, "traffic:"+op.K)
+			// whatever the library did with the pool, two contexts taken now are distinct, empty and independent
+			a, b := types.NewContext(), types.NewContext()
+			if a == b || a == ctxs[0] || a == ctxs[1] || b == ctxs[0] || b == ctxs[1] {
+				return rig.Violf("pool-alias", "step %d: after %s traffic the pool handed out a context that is already in use", i, op.K)
+			}
+			if a.Count() != 0 || b.Count() != 0 {
+				return rig.Violf("pool-dirty", "step %d: after %s traffic NewContext returned %d / %d parameters", i, op.K, a.Count(), b.Count())
+			}
+			a.Set("probe", "1")
+			if b.Count() != 0 {
+				return rig.Violf("pool-alias", "step %d: after %s traffic two fresh contexts share their parameters", i, op.K)
+			}
+			a.Reset()
+			a.Destroy()
+			b.Destroy()
+			nontriv = true
 		}
 		for s := range ctxs {
 			if err := verify(ctxs[s], models[s], c, fmt.Sprintf("after step %d (%s) slot %d", i, op.Kind, s)); err != nil {
@@ -280,7 +349,7 @@ func check(c Case, st *rig.Stats) error {
 }
 
 var stats = rig.NewStats("C20",
-	"rapid draws a history of Set/Delete/Reset/Destroy+NewContext over two live contexts with keys and values from arbitrary strings plus numeric edge cases; all eleven accessors are compared with a map model and strconv after every step. Non-trivial: a value on which at least one of the four strconv parsers fails and at least one succeeds was set, or a context was renewed from the pool after being non-empty; distinct by hash of the whole case",
+	"rapid draws a history of Set/Delete/Reset/Destroy+NewContext over two live contexts with keys and values from arbitrary strings plus numeric edge cases, interleaved with traffic through the library's own users of the context pool (router hit / 404 / 405 / recovered panic, group hit / miss / recovered panic on the group's not-found path, a handler issuing a nested request) after which two fresh contexts must be distinct from each other and from the live ones, empty and independent; all eleven accessors are compared with a map model and strconv after every step. Non-trivial: a value on which at least one of the four strconv parsers fails and at least one succeeds was set, a context was renewed from the pool after being non-empty, or pool traffic ran between accessor steps; distinct by hash of the whole case",
 	"strconv is the trusted reference")
 
 func TestProp(t *testing.T) { rig.RunProp(t, stats, gen, check) }
